@@ -35,6 +35,8 @@ func verifTailValue(cls string) string {
 		return "-5"
 	case "huge":
 		return "1e999"
+	case "big": // finite as a float64, far beyond what a float32 holds
+		return "1e100"
 	case "hugeint":
 		return "99999999999999999999999999999999"
 	case "tiny":
